@@ -780,6 +780,20 @@ func runC11(c *Ctx) {
 		ForEachInstr(fn, func(in ssa.Instruction) {
 			switch x := in.(type) {
 			case *ssa.Panic:
+				// re-raising a recovered panic is not a crash of the transcoder's own making
+				rethrow := false
+				for _, l := range Origins(x.X) {
+					if l.Kind == "call" && IsCallTo(l.Call, "builtin recover") {
+						rethrow = true
+					} else {
+						rethrow = false
+						break
+					}
+				}
+				if rethrow {
+					c.OK("C11.3", FuncName(fn), "re-panic", x.Pos(), "re-raises the value it recovered (the handler's own panic continues to net/http)")
+					return
+				}
 				nPanic++
 				c.Bad("C11.3", FuncName(fn), "panic", x.Pos(), "explicit panic in request-time code")
 			case *ssa.TypeAssert:
